@@ -336,6 +336,27 @@ Definition observations (qf : qfn) (p : policy) (ops : list op) : list obs := fs
 Definition run_ok (qf : qfn) (p : policy) (ops : list op) : bool := snd (fst (run qf p st0 ops)).
 Definition final (qf : qfn) (p : policy) (ops : list op) : state := snd (run qf p st0 ops).
 
+(* the input classes in which today's code leaves the discipline (the recorded findings D8, D10, D11, D12):
+   evaluated on the state BEFORE the step *)
+Definition cache_nonempty (st : state) (j : nat) : bool :=
+  match nth_error (st_objs st) j with Some ob => negb (is_nil (o_cache ob)) | None => false end.
+Definition mask_any (st : state) (j : nat) : bool :=
+  match nth_error (st_objs st) j with Some ob => any_true (o_mask ob) | None => false end.
+Definition finding_class (st : state) (o : op) : bool :=
+  match o with
+  | OArith j _ | OSlice j _ => cache_nonempty st j        (* D10: derivation after a cached_property read *)
+  | OTrim j _ => cache_nonempty st j                       (* D11: trimming after grids / convolver / w_tilde was read *)
+  | OValuesMasked j | OMapRecon j _ _ => mask_any st j     (* D8: a mesh_pixel_mask with a True entry *)
+  | OInterf _ => true                                      (* D12: any interferometer inversion *)
+  | _ => false
+  end.
+Fixpoint run_avoids (qf : qfn) (p : policy) (st : state) (ops : list op) : bool :=
+  match ops with
+  | [] => true
+  | o :: t => negb (finding_class st o) && run_avoids qf p (fst (fst (step qf p st o))) t
+  end.
+Definition avoids_findings (qf : qfn) (ops : list op) : bool := run_avoids qf faithful st0 ops.
+
 (* ------------------------------------------------------------------ PART A: specification (value semantics) *)
 Record sobj := mkSObj { so_val : arr; so_mask : list bool; so_native : bool }.
 Record sstate := mkSState { sp_inputs : list arr; sp_objs : list sobj }.
